@@ -6,6 +6,7 @@
 #include <stddef.h>
 #include <stdint.h>
 #include <algorithm>
+#include <cmath>
 #include <memory>
 #include <vector>
 
@@ -116,10 +117,33 @@ void HistogramDiff(HistogramPointData &current, HistogramPointData &next, Histog
   diff.record_min_max_ = false;
 }
 
+/* boundary < value, decided exactly. An int64_t above 2^53 must not be converted to double for
+ * the comparison: the conversion rounds, and a value that rounds down onto a boundary would be
+ * counted in the bucket below its own. */
+inline bool BucketBoundaryBelow(double boundary, double value) noexcept
+{
+  return boundary < value;
+}
+
+inline bool BucketBoundaryBelow(double boundary, int64_t value) noexcept
+{
+  if (!(boundary < 9223372036854775808.0))  // 2^63 and above (or NaN): no int64_t is larger
+  {
+    return false;
+  }
+  if (boundary < -9223372036854775808.0)
+  {
+    return true;
+  }
+  // value is an integer: boundary < value  <=>  floor(boundary) < value
+  return static_cast<int64_t>(std::floor(boundary)) < value;
+}
+
 template <class T>
 size_t BucketBinarySearch(T value, const std::vector<double> &boundaries)
 {
-  auto low = std::lower_bound(boundaries.begin(), boundaries.end(), value);
+  auto low = std::lower_bound(boundaries.begin(), boundaries.end(), value,
+                              [](double boundary, T v) { return BucketBoundaryBelow(boundary, v); });
   return low - boundaries.begin();
 }
 
